@@ -14,8 +14,16 @@ def conditions(tier, seed):
     hl = 2 if tier == 'quick' else 3
     return [
         Cond('history', 'c10_names.py', dict(hlen=hl), func='check_hist', timeout=t,
-             bound='every history of %d operations out of {set Ab, set Id, del Ab, del Id, relate, unrelate, set Rf} x 4 spellings each, then all reads/queries under all spellings' % hl,
+             bound='every history of %d operations out of {set Ab, set Id, del Ab, del Id, relate, unrelate, set Rf, read Rf, set the referred identifier} x 4 spellings each, then all reads/queries under all spellings' % hl,
              symbolic=['v0..v3 written values (unbounded ints)', 'tid'], case_split=['c1..c3 (operation, spelling)']),
+        Cond('history_linked', 'c10_names.py', dict(hlen=hl, linked=1), func='check_hist', timeout=t,
+             bound='the same histories starting from a linked pair (a referential read under any spelling, then a write of the referred identifier, then reads)',
+             symbolic=['v0..v3', 'tid'], case_split=['c1..c3'], twin=False),
+        Cond('history_underscore', 'c10_names.py', dict(hlen=hl, names='underscore'), func='check_hist', timeout=t,
+             bound='the same histories on attributes whose declared names begin with an underscore (_b, _d, _f)',
+             symbolic=['v0..v3', 'tid'], case_split=['c1..c3'], twin=False),
+        Cond('history_underscore_linked', 'c10_names.py', dict(hlen=2, names='underscore', linked=1), func='check_hist', timeout=t,
+             bound='underscore names, starting from a linked pair, histories of 2', symbolic=['v0..v3', 'tid'], case_split=['c1', 'c2'], twin=False),
         Cond('ctor', 'c10_names.py', {}, func='check_ctor', timeout=t,
              bound='constructor: 4 kind spellings x every subset of {Ab, Id, Rf} keywords x 4 spellings each',
              symbolic=['va', 'vi', 'tid'], case_split=['ks', 's_ab', 's_id', 's_rf', 'use']),
